@@ -29,7 +29,7 @@ SPEC = {
              "= at least 2 trace files with at least 2 data rows each; distinct = distinct case."),
     "shards": {"quick": 16, "thorough": 16},
     "min_counts": {"quick": {"evaluations": 100, "files_checked": 600, "rows_matched": 1500, "flush_variants_compared": 300,
-                             "inserting_visits": 20, "noninserting_visits": 300, "project_rows": 30}},
+                             "inserting_visits": 20, "noninserting_visits": 300, "project_rows": 30, "startpos_traces": 30, "bounded_nests": 30}},
     "assumptions": [
         "traced loop nests use at most two operands per loop level (one & per level, optionally under one <<) so each trace file maps to one operand by the label rule; integer coordinates",
         "destination-side traces of an inserting populate (first source coordinate below the destination's maximum, compressed destination) are only required to be stamp-ordered and complete",
@@ -45,6 +45,17 @@ FAMS = [f for f in kernels.FAMILIES if len(f[0]) <= 2]
 def generate(rng, tier, shard, nshards, mon):
     n = (720 if tier == "quick" else 40000) // nshards
     for i in range(n):
+        if i % 10 == 1:
+            # a single traced fiber iterated from a (valid) saved position
+            yield {"kind": "startpos", "f": gen.rand_leaf_spec(rng, rng.randint(2, 10), 0.7, 0.25, 0), "r": rng.randrange(1 << 16),
+                   "mode": rng.choice(["iterOccupancy", "iterRange", "iterActive", "iter"]), "s": rng.randint(0, 5), "e": rng.randint(3, 11)}
+            continue
+        if i % 10 == 6:
+            # inner intersection consumed through a bounded range that may end before the operands do
+            M, K = rng.randint(1, 4), rng.randint(2, 8)
+            yield {"kind": "bounded", "a": gen.rand_tree_spec(rng, [M, K], 0.8, 0.0, 0), "b": gen.rand_leaf_spec(rng, K, 0.7, 0.0, 0),
+                   "lo": rng.randint(0, 3), "hi": rng.randint(2, K + 1), "M": M, "K": K}
+            continue
         if i % 5 == 3:
             e = [rng.randint(1, 3), rng.randint(1, 3), rng.randint(1, 4)]
             yield {"kind": "tuple", "ext": e, "nest": kernels._rand_nest(rng, e, rng.choice([0.4, 0.8, 1.0])), "levels": 1}
@@ -231,15 +242,35 @@ def _run(case, prefix, ncu, consumable):
     Metrics.beginCollect(prefix)
     for r in ranks:
         for tt in ALL_TYPES:
-            Metrics.trace(r, type_=tt, consumable=consumable)
+            if consumable == "file-then-mem":       # the same trace requested on disk first, then in memory
+                Metrics.trace(r, type_=tt)
+                Metrics.trace(r, type_=tt, consumable=True)
+            elif consumable == "mem-then-file":
+                Metrics.trace(r, type_=tt, consumable=True)
+                Metrics.trace(r, type_=tt)
+            else:
+                Metrics.trace(r, type_=tt, consumable=consumable)
     kernels.execute(spec, tensors, Z, lvars, zl, observer=gt)
     files = {}
+    mem = {}
     if consumable:
         for r in ranks:
             for tt in ALL_TYPES:
                 rows = Metrics.consumeTrace(r, tt)
-                files[(r, tt)] = [[str(x) for x in row] for row in rows]
+                mem[(r, tt)] = [[str(x) for x in row] for row in rows]
+        files = mem
     Metrics.endCollect()
+    if consumable in ("file-then-mem", "mem-then-file"):
+        files = {}
+        for r in ranks:
+            for tt in ALL_TYPES:
+                fn = f"{prefix}-{r}-{tt}.csv"
+                rows = None
+                if os.path.exists(fn):
+                    with open(fn) as fh:
+                        rows = [ln.rstrip("\n").split(",") for ln in fh if ln.strip() != ""]
+                # both forms must hold the same rows; report the in-memory form and flag a difference
+                files[(r, tt)] = rows if (rows or []) == (mem[(r, tt)] or []) else [["<file and memory differ>"]] + (rows or [])
     if not consumable:
         for r in ranks:
             for tt in ALL_TYPES:
@@ -259,6 +290,10 @@ def run_case(case, mon):
             _run_project(case, mon, os.path.join(tmp, "p"))
         elif case["kind"] == "tuple":
             _run_tuple(case, mon, os.path.join(tmp, "t"))
+        elif case["kind"] == "startpos":
+            _run_startpos(case, mon, os.path.join(tmp, "s"))
+        elif case["kind"] == "bounded":
+            _run_bounded(case, mon, os.path.join(tmp, "b"))
         else:
             _run_kernel(case, mon, os.path.join(tmp, "k"))
     finally:
@@ -373,7 +408,7 @@ def _run_kernel(case, mon, prefix):
             if extra and not any(v["inserting"] for v in visits):
                 mon.violation(f"{_tkind(tt)}:extra-rows", f"trace {R}/{tt}: {sum(len(g[1]) for g in extra)} rows belong to no traced access; {desc}")
     # flush-threshold / consumable invariance
-    for ncu, cons in ((2, False), (3, False), (7, False), (1000, True)):
+    for ncu, cons in ((2, False), (3, False), (7, False), (1000, True), (3, "file-then-mem"), (1000, "mem-then-file")):
         try:
             _, f2, _ = _run(case, prefix, ncu, cons)
         except BaseException as e:      # noqa
@@ -526,3 +561,153 @@ def _run_tuple(case, mon, prefix):
     if len(exp_n) >= 2:
         mon.nontrivial()
     mon.state(("tuple", len(exp_n)))
+
+
+def _read_csv(fn):
+    if not os.path.exists(fn):
+        return None
+    with open(fn) as fh:
+        return [ln.rstrip("\n").split(",") for ln in fh if ln.strip()]
+
+
+def _run_startpos(case, mon, prefix):
+    """`iter` trace of one fiber iterated from a saved position: rows address the raw index of each element."""
+    t = Tensor.fromFiber(rank_ids=["K"], fiber=gen.fiber_from_spec(case["f"], 0), shape=[12])
+    f = t.getRoot()
+    mode = case["mode"]
+    s_, e_ = (case["s"], case["e"]) if mode == "iterRange" else ((None, None) if mode != "iterActive" else f.getActive())
+    elems = [(c, i) for i, (c, p) in enumerate(zip(f.coords, f.payloads)) if not _is_empty(p)]
+    inr = [(c, i) for c, i in elems if (s_ is None or c >= s_) and (e_ is None or c < e_)]
+    # valid start positions: no element that must be yielded lies before it
+    first = inr[0][1] if inr else len(f.coords) - 1
+    cands = [p for p in range(0, max(first, 0) + 1) if p < len(f.coords)]
+    if not cands:
+        return
+    sp = cands[case["r"] % len(cands)]
+    out = {}
+    for cons in (False, True):
+        try:
+            Metrics.setNumCachedUses(2)
+            Metrics.beginCollect(prefix)
+            Metrics.trace("K", type_="iter", consumable=cons)
+            if mode == "iterOccupancy":
+                it = f.iterOccupancy(start_pos=sp)
+            elif mode == "iterRange":
+                it = f.iterRange(s_, e_, start_pos=sp)
+            elif mode == "iterActive":
+                it = f.iterActive(start_pos=sp)
+            else:
+                it = f.__iter__(start_pos=sp)
+            for c, p in it:
+                pass
+            rows = [[str(x) for x in r] for r in Metrics.consumeTrace("K", "iter")] if cons else None
+            Metrics.endCollect()
+            if not cons:
+                rows = _read_csv(f"{prefix}-K-iter.csv")
+        except BaseException as e:      # noqa
+            if isinstance(e, KeyboardInterrupt):
+                raise
+            mon.violation(f"iter:start_pos:raised:{type(e).__name__}", f"{mode}(start_pos={sp}) under an iter trace raised {type(e).__name__}: {e}; {case}")
+            return
+        out[cons] = rows or []
+    rows = out[False]
+    mon.count("files_checked")
+    mon.count("startpos_traces")
+    if not rows:
+        mon.check(not inr, "iter:missing-rows", f"{mode}(start_pos={sp}): iter trace empty, {len(inr)} elements were yielded")
+        return
+    if mon.check(rows[0] == ["K_pos", "K", "fiber_pos"], "iter:header", f"header {rows[0]}"):
+        got = [(r[1], r[2]) for r in rows[1:]]
+        want = [(str(c), str(i)) for c, i in inr]
+        if mon.check([g[0] for g in got] == [w[0] for w in want], "iter:rows", f"{mode}(start_pos={sp}): rows address {[g[0] for g in got]}, yielded {[w[0] for w in want]}"):
+            mon.count("rows_matched", len(want))
+            mon.check(got == want, "iter:position:start_pos", f"{mode}(start_pos={sp}): (coord, fiber_pos) rows {got}, raw indices {want}; fiber coords {f.coords}")
+        st = [int(r[0]) for r in rows[1:]]
+        mon.check(all(a < b for a, b in zip(st, st[1:])), "iter:stamp-order", f"iter stamps {st} not strictly increasing")
+    mon.count("flush_variants_compared")
+    mon.check(out[True] == rows, "flush:consumable-differs", "start_pos trace differs between file and consumable mode")
+    if len(rows) >= 3:
+        mon.nontrivial()
+    mon.state(("startpos", mode, len(rows)))
+
+
+def _run_bounded(case, mon, prefix):
+    """for m: for k in (a_k & b_k).iterRange(lo, hi): the inner loop may stop before the operands are exhausted."""
+    A = gen.tensor_from_spec(case["a"], ["M", "K"], shape=[case["M"], case["K"]], default=0)
+    B = gen.tensor_from_spec(case["b"], ["K"], shape=[case["K"]], default=0)
+    lo, hi = case["lo"], case["hi"]
+    a_m, b_k = A.getRoot(), B.getRoot()
+    exp = {"iter": [], "intersect_0": [], "intersect_1": [], "m": []}
+    pb = _present(b_k)
+    for mi, (m, a_k) in enumerate(zip(a_m.coords, a_m.payloads)):
+        if _is_empty(a_k):
+            continue
+        exp["m"].append((m, mi))
+        pa = _present(a_k)
+        i = j = 0
+        nmatch = 0
+        ended_early = False
+        while i < len(pa) and j < len(pb):
+            if pa[i][0] == pb[j][0]:
+                exp["intersect_0"].append((m, pa[i][0], pa[i][1]))
+                exp["intersect_1"].append((m, pb[j][0], pb[j][1]))
+                c = pa[i][0]
+                if c >= hi:
+                    ended_early = True
+                    break
+                if c >= lo:
+                    exp["iter"].append((m, c, nmatch))
+                nmatch += 1
+                i += 1
+                j += 1
+            elif pa[i][0] < pb[j][0]:
+                exp["intersect_0"].append((m, pa[i][0], pa[i][1]))
+                i += 1
+            else:
+                exp["intersect_1"].append((m, pb[j][0], pb[j][1]))
+                j += 1
+        if not ended_early:
+            if i < len(pa):
+                exp["intersect_0"].append((m, pa[i][0], pa[i][1]))
+            if j < len(pb):
+                exp["intersect_1"].append((m, pb[j][0], pb[j][1]))
+    try:
+        Metrics.setNumCachedUses(3)
+        Metrics.beginCollect(prefix)
+        for tt in ("iter", "intersect_0", "intersect_1"):
+            Metrics.trace("K", type_=tt)
+        Metrics.trace("M", type_="iter")
+        for m, a_k in a_m:
+            for k, (av, bv) in (a_k & b_k).iterRange(lo, hi):
+                pass
+        Metrics.endCollect()
+    except BaseException as e:      # noqa
+        if isinstance(e, KeyboardInterrupt):
+            raise
+        mon.violation(f"bounded:raised:{type(e).__name__}", f"bounded inner loop raised {type(e).__name__}: {e}; {case}")
+        return
+    mon.count("bounded_nests")
+    big = 0
+    for tt in ("iter", "intersect_0", "intersect_1"):
+        rows = _read_csv(f"{prefix}-K-{tt}.csv") or []
+        mon.count("files_checked")
+        want = exp[tt]
+        if not rows:
+            mon.check(not want or not exp["m"], f"{_tkind(tt)}:missing-rows", f"bounded nest: trace K/{tt} empty, {len(want)} accesses happened; {case}")
+            continue
+        if not mon.check(rows[0] == ["M_pos", "K_pos", "M", "K", "fiber_pos"], f"{_tkind(tt)}:header", f"bounded nest header {rows[0]}"):
+            continue
+        got = [(r[2], r[3], r[4]) for r in rows[1:] if len(r) == 5]
+        w = [(str(a), str(b), str(c)) for a, b, c in want]
+        if mon.check([g[:2] for g in got] == [x[:2] for x in w], f"{_tkind(tt)}:rows:bounded-range",
+                     f"bounded nest (range [{lo},{hi})): trace K/{tt} rows address {[g[:2] for g in got]}, traced accesses were {[x[:2] for x in w]}; {case}"):
+            mon.count("rows_matched", len(w))
+            mon.check(got == w, f"{_tkind(tt)}:position", f"bounded nest: trace K/{tt} rows {got}, expected {w}")
+        st = [tuple(int(x) for x in r[:2]) for r in rows[1:] if len(r) == 5]
+        okst = all((a < b) if tt == "iter" else (a <= b) for a, b in zip(st, st[1:]))
+        mon.check(okst, f"{_tkind(tt)}:stamp-order", f"bounded nest: stamps of K/{tt} not ordered: {st}")
+        if len(rows) >= 3:
+            big += 1
+    if big >= 2:
+        mon.nontrivial()
+    mon.state(("bounded", len(exp["iter"]), len(exp["intersect_0"])))
